@@ -858,6 +858,11 @@ class EvolvableAlgorithm(ABC, metaclass=RegistryMeta):
         # Load other attributes
         checkpoint.pop("network_info")
         for attribute in checkpoint.keys():
+            # Plain torch modules (e.g. a reference to a layer of a network) belong to the
+            # networks rebuilt above; a pickled copy would be detached from them
+            if isinstance(checkpoint[attribute], torch.nn.Module):
+                continue
+
             setattr(self, attribute, checkpoint[attribute])
 
         # Wrap models / compile if necessary
@@ -1017,6 +1022,11 @@ class EvolvableAlgorithm(ABC, metaclass=RegistryMeta):
                 warnings.warn(
                     f"Attribute {attribute} not found in checkpoint. Skipping."
                 )
+                continue
+
+            # Plain torch modules (e.g. a reference to a layer of a network) belong to the
+            # networks rebuilt above; a pickled copy would be detached from them
+            if isinstance(checkpoint.get(attribute), torch.nn.Module):
                 continue
 
             setattr(self, attribute, checkpoint.get(attribute))
